@@ -169,6 +169,7 @@ def run_case(case: dict) -> dict:
 
     rng = core.rng_for(case["seed"])
     mod, meta, src = _write_modules(case, rng)
+    mod.C1 = 1.25  # a re-run of the case in the same worker finds the module imported, with the value the second pass left
     twin = instrumented_twin(src, mod.__name__)
     viols: list[dict] = []
     counters: dict[str, int] = {"functions": 0, "translated": 0, "refused_none": 0, "refused_exception": 0, "points_compared": 0, "points_outside_domain": 0}
